@@ -335,7 +335,12 @@ func (w *world) checkGroups(ni int, afterPrune string) {
 				where[p.ByteString()] = name
 			}
 		}
-		// a connected peer is a neighbour, or its disconnect notification is still queued
+		// a connected peer is a neighbour, or its disconnect notification is still queued. Only for
+		// registered groups (what GetGroupPeers can list): an object that was unregistered (gcGroup,
+		// newGroup over an existing gid) is no longer visited by the disconnect loop.
+		if strings.HasSuffix(l.gid, "(via peerGroups)") {
+			continue
+		}
 		for _, p := range l.c {
 			if !n.route.nbrs[p.ByteString()] {
 				queued := false
@@ -710,6 +715,11 @@ func genGroups(run *hx.Run, r *hx.Rand, nev int, long bool) {
 			w.exec(jev{K: "new", Gid: g, T: r.Intn(3), Dump: true})
 		}
 	}
+	for _, p := range peers {
+		if r.Bool() {
+			w.exec(jev{K: "connect", P: p})
+		}
+	}
 	created := 0
 	for i := 0; i < nev; i++ {
 		switch x := r.Intn(100); {
@@ -718,11 +728,11 @@ func genGroups(run *hx.Run, r *hx.Rand, nev int, long bool) {
 		case x < 34:
 			w.exec(jev{K: "remove", Gid: gk(), P: pk(), B: r.Bool(), Dump: true})
 		case x < 46:
-			if r.Bool() {
+			if r.Chance(2, 5) {
 				w.exec(jev{K: "connect", P: pk(), Dump: true})
 			} else {
 				p := pk()
-				if w.nodes[0].route.nbrs[ad(p).ByteString()] || r.Chance(1, 5) {
+				if w.nodes[0].route.nbrs[ad(p).ByteString()] || r.Chance(1, 3) {
 					w.exec(jev{K: "disconnect", P: p, Dump: true})
 				}
 			}
@@ -894,6 +904,14 @@ func genFlood(run *hx.Run, r *hx.Rand, nn int, expiry, long bool) {
 			skip = []string{selfs[r.Intn(nn)]}
 		}
 		w.exec(jev{K: "multicast", N: src, Msg: &m, Skip: skip})
+		if r.Chance(1, 4) { // the same message handed to Multicast again (explicit origin and id): must be swallowed
+			again := m
+			if again.Origin == "" {
+				again.Origin, again.ID = selfs[src], w.nodes[src].svc.VerifMsgSeq()
+			}
+			w.exec(jev{K: "multicast", N: src, Msg: &again})
+			w.run.Hist("multicast.repeated")
+		}
 		for s := 0; s < r.Intn(8) && len(w.soup) > 0; s++ {
 			i := r.Intn(len(w.soup))
 			p := w.soup[i]
@@ -939,6 +957,61 @@ func genFlood(run *hx.Run, r *hx.Rand, nn int, expiry, long bool) {
 	w.finish("flood", true)
 }
 
+// malformed payloads on the multicast stream: nothing may be delivered or forwarded, nothing may panic
+func genMalformed(run *hx.Run, r *hx.Rand) {
+	selfs := []string{hexb(0xB0, 1), hexb(0xB1, 2)}
+	w := newWorld(run, selfs)
+	G := hexb(0xE1, 7)
+	for i := range selfs {
+		w.exec(jev{K: "new", N: i, Gid: G, T: 0})
+		w.exec(jev{K: "subscribe", N: i, Gid: G})
+		w.exec(jev{K: "connect", N: i, P: selfs[1-i]})
+		w.exec(jev{K: "add", N: i, Gid: G, P: selfs[1-i], B: true})
+	}
+	good := frame(&pb.MulticastMsg{Id: 5, Origin: unhex(selfs[1]), Gid: unhex(G), Data: []byte{1, 2, 3}})
+	payloads := [][]byte{nil, {0xff}, {0x05, 0x08}, good[:len(good)-1], good[:len(good)/2], append([]byte{0xff, 0xff, 0xff, 0xff, 0x0f}, good...), r.Bytes(1 + r.Intn(20))}
+	nd := w.nodes[0]
+	for _, pl := range payloads {
+		pl := pl
+		multicast.VerifSwapCache(nd.cache)
+		nd.svc.VerifUnthrottle()
+		if p, msg := hx.Guard(func() { w.callHandler(nd, "multicast", ad(selfs[1]), pl) }); p {
+			w.violate("panic:onMulticast-malformed", msg, msg, "no panic")
+		}
+		run.OracleChecked(1)
+		delivered := 0
+		for _, p := range nd.sub.pubs {
+			if p.kind == "multicastMsg" {
+				delivered++
+			}
+		}
+		// a random payload may by chance be a well-formed message; only truncations of a good one are decisive
+		if (delivered > 0 || len(nd.str.sent) > 0) && (len(pl) < len(good)) && bytes.HasPrefix(good, pl) {
+			w.violate("malformed:truncated-packet-had-effect", fmt.Sprintf("payload %x: %d deliveries, %d packets written", pl, delivered, len(nd.str.sent)), delivered, 0)
+		}
+		nd.sub.pubs, nd.str.sent = nil, nil
+		run.Hist("malformed.payload")
+	}
+	run.AddCase("", w.jc, "malformed", false)
+}
+
+// corpus: a group object replaced under its gid while peerGroups still points at the old one; the
+// disconnect loop only visits registered objects (an early oracle wrongly demanded more)
+func genCorpusStale(run *hx.Run) {
+	w := newWorld(run, []string{hexb(0xA0, 0xB5)})
+	g, p, q := hexb(0xE0), hexb(0x12, 0x02), hexb(0x10, 0x01)
+	for _, e := range []jev{
+		{K: "new", Gid: g, Dump: true}, {K: "connect", P: p}, {K: "connect", P: q},
+		{K: "handshake", P: p, Gids: []string{g}, Dump: true}, {K: "add", Gid: g, P: q, B: true, Dump: true},
+		{K: "new", Gid: g, B: true, T: 2, Dump: true}, {K: "disconnect", P: p, Dump: true}, {K: "procdisc", Dump: true},
+		{K: "handshake", P: q, Gids: []string{g}, Dump: true}, {K: "handshake", P: p, Gids: nil, Dump: true},
+		{K: "gc", Dump: true}, {K: "notify", P: q, B: false, Gids: []string{g}, Dump: true}, {K: "gc", Dump: true},
+	} {
+		w.exec(e)
+	}
+	w.finish("corpus-stale-object", true)
+}
+
 func main() {
 	run := hx.Start("C38", "Aurora.C38.Corr",
 		"whole runs on the real multicast.Service: (a) random histories of group add/remove/prune/handshake/notify/gc/connect/disconnect events on one node, dump after every event; (b) pruneKnown around maxKnownPeers; (c) flooding over 2..6 simulated nodes (members, observers, relays; asymmetric connected/kept edges; explicit origins, skip lists, drops, duplicates, forged packets) drained to quiescence; non-trivial = at least 5 events / known list above the maximum / any flooding run; distinct by the full (event, observation) sequence")
@@ -956,6 +1029,7 @@ func main() {
 		run.Finish()
 		return
 	}
+	genCorpusStale(run)
 	for i := 0; i < run.N(40, 400); i++ {
 		genGroups(run, r.Fork(uint64(i)), 8+r.Intn(32), i%7 == 3)
 	}
@@ -965,6 +1039,7 @@ func main() {
 	for i := 0; i < run.N(56, 600); i++ {
 		genFlood(run, r.Fork(uint64(2000+i)), 2+r.Intn(5), false, i%8 == 5)
 	}
+	genMalformed(run, r.Fork(7777))
 	if run.Thorough() {
 		genFlood(run, r.Fork(99991), 4, true, false)
 	}
